@@ -411,9 +411,14 @@ impl<'w, 'i, W: Write> SerializeSeq for Seq<'w, 'i, W> {
     {
         // A primitive (text) item is allowed only if the previous item was not a text,
         // otherwise they would be glued together and cannot be deserialized back
-        self.last = value.serialize(self.ser.new_seq_element_serializer(!self.last.is_text()))?;
-        // Write indent for next element if indents are used
-        self.ser.write_indent = self.last.allow_indent();
+        let result = value.serialize(self.ser.new_seq_element_serializer(!self.last.is_text()))?;
+        // An item that is not represented in XML (unit, unit struct) changes nothing:
+        // what is allowed after it is decided by the item before it
+        if result != WriteResult::Nothing {
+            self.last = result;
+            // Write indent for next element if indents are used
+            self.ser.write_indent = self.last.allow_indent();
+        }
         Ok(())
     }
 
